@@ -19,7 +19,7 @@ import ast
 from .. import ir
 from ..paths import walk, paths, strip_gates
 from ..report import AnalysisError
-from .common import defines, explainer_classes, field_roles, new_items
+from .common import ctor_wiring, defines, explainer_classes, field_roles, new_items
 from .drawlib import is_draw
 from .explcore import Inc, impute_args, check_guard_and_counter, defaults_resolution
 from .imputerlib import protected_mutations, imputer_classes, impute_params, model_field
@@ -296,6 +296,7 @@ def check(run):
     n_loss = 0
     for cls in classes:
         defaults_resolution(run, prog, cls, "DEFAULTS", cls.name)
+        ctor_wiring(run, prog, cls, "CTOR")
         roles, fields = role_fields(prog, cls)
         lf = one(fields, "LOSS", cls)
         imf, sf, mf = one(fields, "IMPUTER", cls), one(fields, "STORAGE", cls), one(fields, "MODEL", cls)
@@ -425,7 +426,10 @@ def _budget_and_storage(run, prog, cls):
     if ok:
         lp = imps[0][1].loops[0]
         from .drawlib import uniform_permutation
-        it_ok = lp.iter == FEATURE_NAMES or uniform_permutation(lp.iter, FEATURE_NAMES)[0] in (True, "coerce")
+        it = lp.iter
+        if it[0] == "fn" and it[1] == "enumerate" and it[2]:
+            it = it[2][0]               # numbering the steps does not change how many there are
+        it_ok = it == FEATURE_NAMES or uniform_permutation(it, FEATURE_NAMES)[0] in (True, "coerce")
         if not it_ok:
             ok, why = False, f"the per-feature loop runs over {ir.show_nl(lp.iter)[:100]}, not over the d feature names"
         fs, xi, ns = impute_args(imps[0][0])
